@@ -74,9 +74,13 @@ CHARSETS = [list("ab1"), list("abcA"), list("abAB1 "), list("ab.\n1"), list("aß
 def make_case(rng, i, tier):
     cs = rng.choice(CHARSETS)
     ast = regexgen.gen_re(rng, rng.choice([1, 2, 2, 3] if tier == "quick" else [2, 3, 3, 4]), cs)
+    if rng.random() < 0.12:
+        ast = suffix_loop(rng, [c for c in cs if c.isalnum()] or cs)
     if "ß" in cs and rng.random() < 0.5:
         ast = ("cat", ("ilit", "ß"), ast) if rng.random() < 0.5 else ("alt", ("ilit", "ßa"), ast)
     L = 3 if len(cs) <= 4 else 2
+    if ast[0] == "cat" and ast[1][0] == "star" and len(cs) <= 4:
+        L = 4
     if tier == "thorough":
         L += 1 if len(cs) <= 4 else 0
     strings = ["".join(s) for s in gen.all_strings(cs, L)]
@@ -86,10 +90,39 @@ def make_case(rng, i, tier):
     return {"id": i, "ast": ast, "pattern": regexgen.to_pattern(ast), "charset": cs, "strings": strings, "prev_pattern": prev}
 
 
+def _cats(*xs):
+    out = xs[-1]
+    for x in reversed(xs[:-1]):
+        out = ("cat", x, out)
+    return out
+
+
+def suffix_loop(rng, cs):
+    """loops that can only be LEFT after coming back round to an earlier state: (a|b)*abb, (a|b)*a(a|b)(a|b), ((ab)*c)*d —
+    the minimal DFA has non-final states all of whose live successors were discovered before them"""
+    a, b = (rng.sample(cs, 2) if len(cs) >= 2 else (cs[0], cs[0]))
+    c, d = rng.choice(cs), rng.choice(cs)
+    L = lambda x: ("lit", x)   # noqa
+    ab = ("alt", L(a), L(b))
+    k = rng.randrange(3)
+    if k == 0:
+        return _cats(("star", ab), *[L(rng.choice([a, b])) for _ in range(rng.choice([2, 3]))])
+    if k == 1:
+        return _cats(("star", ab), L(a), *[ab for _ in range(rng.choice([1, 2]))])
+    return _cats(("star", _cats(("star", _cats(L(a), L(b))), L(c))), L(d))
+
+
 def corpus():
     cs = list("aßSs")
     ast = ("ilit", "ß")
-    return [{"ast": ast, "pattern": regexgen.to_pattern(ast), "charset": cs, "strings": ["".join(s) for s in gen.all_strings(cs, 2)]}]
+    out = [{"ast": ast, "pattern": regexgen.to_pattern(ast), "charset": cs, "strings": ["".join(s) for s in gen.all_strings(cs, 2)]}]
+    L = lambda x: ("lit", x)   # noqa
+    ab = ("alt", L("a"), L("b"))
+    for ast, cs, n in ((_cats(("star", ab), L("a"), L("b"), L("b")), list("ab"), 6),
+                       (_cats(("star", ab), L("a"), ab, ab), list("ab"), 6),
+                       (_cats(("star", _cats(("star", _cats(L("a"), L("b"))), L("c"))), L("d")), list("abcd"), 4)):
+        out.append({"ast": ast, "pattern": regexgen.to_pattern(ast), "charset": cs, "strings": ["".join(s) for s in gen.all_strings(cs, n)], "prev_pattern": None})
+    return out
 
 
 def run(ctx):
